@@ -302,7 +302,23 @@ def r3(ctx):
     msl = backslice(b, [cmp.a]) if backslice(b, [cmp.a]).has_call(r'Metadata::modified$') else backslice(b, [cmp.b])
     added = [c for c in msl.calls if c.matches(r'as std::ops::(Add|Sub)<.*>>::(add|sub)$|::checked_(add|sub)(_signed)?$')]
     sub = [c for c in b.calls(r'subsec_(nanos|micros|millis)$|::nanosecond$|timestamp_subsec')]
-    ctx.check(bool(added) and bool(sub), rule, P + '|resolution', b.where(cmp.line), 'the compared file time includes the resolution of the stored time stamp (whole-second time stamps get a slack)',
+    # ... the amount that is added is CHOSEN by the sub-second part: it is assigned on both sides of a test of that part (or computed from it)
+    chosen = False
+    for c in added:
+        for a in c.args[1:]:
+            asl = backslice(b, [a])
+            if any(k.bb == x.bb for k in asl.calls for x in sub):
+                chosen = True                       # computed from the sub-second part
+            defs = {bi for bi, blk in enumerate(b.blocks) for st in blk['stmts'] if st['p'][0] in asl.locals and not blk['cleanup']} | {k.bb for k in asl.calls}
+            for bi, blk in enumerate(b.blocks):
+                t = blk['term']
+                if t['k'] != 'switch' or not any(k.bb == x.bb for k in backslice(b, [t['op']]).calls for x in sub):
+                    continue
+                sides = [x for x in dict.fromkeys(t['tgts'])]
+                hit = [any(b.dominates(sd, d) for d in defs) for sd in sides]
+                if sum(hit) >= 2:
+                    chosen = True
+    ctx.check(bool(added) and bool(sub) and chosen, rule, P + '|resolution', b.where(cmp.line), 'the compared file time includes the resolution of the stored time stamp (whole-second time stamps get a slack)',
               'the stored mtime is compared with the millisecond time stamp of the report as it is: on a file system that keeps whole seconds (ext3, ext4 with 128-byte inodes, HFS+, NFS/SMB servers; '
               'FAT: 2 s) a write made after `fclones group` started, but within the same second, is stored with a time BEFORE the report time stamp - the group is processed on the stale belief and '
               'the only file still holding the original bytes is removed')
